@@ -185,9 +185,7 @@ def run(C, R):
         for fn in F.raw['fns']:
             if fn['kind'] == 'closure' or not fn['path'].lstrip('<').startswith('channel::mpmc'):
                 continue
-            if not any(b['term']['k'] == 'call' and 'fn' in b['term']['func'] and
-                       b['term']['func']['fn']['name'] in ('clear', 'pop', 'lock') for b in fn['blocks'] if not b['cleanup']):
-                continue
+            # (no syntactic pre-filter: the lock and the discard may sit in a helper or a closure the function calls)
             if fn.get('impl_adt') == STATE:
                 continue     # the state functions themselves: R2 (delivery) and C08.R2 (what clear does)
             for path in E.run(fn['path']):
